@@ -241,6 +241,22 @@ def _classpath():
     return COMMUNITY
 
 
+def apalache(module, init, inv, length, timeout=1200):
+    """apalache-mc check on spec/apalache/<module>.tla; returns True iff EXITCODE: OK"""
+    d = os.path.join(SPEC, "apalache")
+    out = os.path.join(CACHE, "apalache-out")
+    try:
+        p = subprocess.run(["apalache-mc", "check", f"--init={init}", f"--inv={inv}", f"--length={length}", f"--out-dir={out}", module + ".tla"],
+                           cwd=d, stdout=subprocess.PIPE, stderr=subprocess.STDOUT, text=True, timeout=timeout)
+    except subprocess.TimeoutExpired:
+        raise ToolError(f"apalache timed out on {module} {inv}")
+    if "EXITCODE: OK" in p.stdout:
+        return True
+    if "EXITCODE: ERROR (12)" in p.stdout or "violat" in p.stdout.lower():
+        return False
+    raise ToolError("apalache failed: " + p.stdout[-500:])
+
+
 class Evidence:
     def __init__(self, pid, tier, level):
         self.pid, self.tier, self.level = pid, tier, level
